@@ -1519,9 +1519,8 @@ def remove_stns_sinex(sinex, sites):
         # Get header line and update the creation time and the number of
         # parameter estimates. Write the updated header line to the new file
         header = read_sinex_header_line(sinex)
-        old_creation_time = header[15:27]
         creation_time = set_creation_time()
-        header = header.replace(old_creation_time, creation_time)
+        header = header[:15] + creation_time + header[27:]
         old_num_params = header[60:65]
         if header[70:71] == 'V':
             num_stn_params = 6
@@ -1692,9 +1691,8 @@ def remove_velocity_sinex(sinex):
         # - update number of parameter estimates
         # - remove 'V' from parameter list 
         # - then write to file
-        old_creation_time = header[15:27]
         creation_time = set_creation_time()
-        header = header.replace(old_creation_time, creation_time)
+        header = header[:15] + creation_time + header[27:]
         old_num_params = int(header[60:65])
         num_params = int(old_num_params / 2)
         header = header.replace(str(old_num_params), str(num_params))
@@ -1858,9 +1856,8 @@ def remove_matrixzeros_sinex(sinex):
         # - update the creation time 
         # - then write to file
         header = read_sinex_header_line(sinex)
-        old_creation_time = header[15:27]
         creation_time = set_creation_time()
-        header = header.replace(old_creation_time, creation_time)
+        header = header[:15] + creation_time + header[27:]
         out.write(header)
         del header
 
